@@ -110,6 +110,29 @@ def run_call(spec):
         return tree_sig(tree.unslice_rand(seed=S))
     if kind == "slice_and_reconfigure":
         return tree_sig(tree.slice_and_reconfigure(**kw))
+    if kind == "repeat_after_history":
+        # the same seeded NON-inplace call made twice on a tree that already has a history of
+        # in-place operations: both answers must coincide (and coincide across processes)
+        tree.subtree_reconfigure_(subtree_size=3, maxiter=2, select="max")
+        if spec.get("also_anneal"):
+            tree.simulated_anneal_(tsteps=1, numiter=1, seed=3)
+        which = spec["which"]
+
+        def call():
+            if which == "subtree_reconfigure":
+                return tree_sig(tree.subtree_reconfigure(seed=S, **kw))
+            if which == "forest":
+                return tree_sig(tree.subtree_reconfigure_forest(seed=S, parallel=False, **kw))
+            if which == "anneal":
+                return tree_sig(tree.simulated_anneal(seed=S, **kw))
+            if which == "slice":
+                return tree_sig(tree.slice(seed=S, **kw))
+            raise ValueError(which)
+
+        first = call()
+        before = tree_sig(tree)
+        second = call()
+        return {"first": first, "second": second, "source_unchanged": tree_sig(tree) == before}
     if kind == "gen":
         fn = getattr(U, spec["fn"])
         return fn(*spec.get("args", []), seed=S, **kw)
